@@ -8,13 +8,15 @@
   error-free (there is no empty-read limit in an io.ReadFull loop; a finite script always ends).
   It is implied by C04's `Steady` (`steady_delivers`).
 
-  Over such a source the back end is an exact cursor over the unread stream: `SkipN k` returns
+  Over EVERY script the back end is a weak cursor (`SkipN k` returns exactly the next `k` bytes and
+  leaves the source exactly `k` bytes further, or fails): soundness and totality with no hypothesis
+  on the source at all.  Over a delivering source it is an exact cursor over the unread stream: `SkipN k` returns
   exactly the next `k` bytes and leaves the source exactly `k` bytes further — also when the last
   `Read` returned its data together with an error (the F9 clause `if i >= n { err = nil }`) — and
   fails iff fewer than `k` bytes are left.  Hence ReaderSkipDecoder.Next agrees exactly with refTpl,
   returns exactly the value and reads nothing beyond it.
 -/
-import Verif.Lemmas.SkipTpl
+import Verif.Lemmas.SkipTplW
 import Verif.Lemmas.Reader
 import Verif.Spec.Cursor
 namespace Verif
@@ -177,29 +179,133 @@ theorem readFull_short : ∀ (fuel : Nat) (s : Src) (n : Nat) (acc : Bytes),
       simp only []
       exact ih _ n _ (by rw [List.length_append]; omega)
 
-/-- back-end invariant during one `Next(t)`: the source still delivers, and `got` is exactly what
-    has been read from the stream `S0` so far -/
-def ReaderP (S0 : Bytes) (s : ReaderDec) : Prop :=
-  Delivers s.src.script s.src.stream.length = true ∧ s.got ++ s.src.stream = S0
+theorem take_of_append_eq {d tl stream : Bytes} (h : d ++ tl = stream) :
+    d = stream.take d.length ∧ tl = stream.drop d.length := by
+  subst h; simp
 
-theorem reader_cursor (S0 : Bytes) : Cursor readerBackend (fun s => s.src.stream) (ReaderP S0) := by
-  refine ⟨?_, ?_, ?_⟩
-  · intro s k hp hk
+/-- the read-full loop over ANY script: if it collected `n` bytes, they are exactly the next
+    `n - |acc|` bytes of the stream and the source is exactly that much further; otherwise it reports
+    an error -/
+theorem readFull_any : ∀ (fuel : Nat) (s : Src) (n : Nat) (acc : Bytes), acc.length ≤ n →
+    ((readFullLoop fuel s n acc).1.length ≥ n →
+      (readFullLoop fuel s n acc).1 = acc ++ s.stream.take (n - acc.length) ∧
+      (readFullLoop fuel s n acc).2.2.stream = s.stream.drop (n - acc.length) ∧
+      n - acc.length ≤ s.stream.length) ∧
+    ((readFullLoop fuel s n acc).1.length < n → ∃ e, (readFullLoop fuel s n acc).2.1 = some e) := by
+  intro fuel
+  induction fuel with
+  | zero =>
+    intro s n acc hacc
+    simp only [readFullLoop]
+    refine ⟨fun h => ?_, fun _ => ⟨_, rfl⟩⟩
+    have : n - acc.length = 0 := by omega
+    simp [this]
+  | succ fuel ih =>
+    intro s n acc hacc
+    simp only [readFullLoop]
+    by_cases hdone : acc.length ≥ n
+    · simp only [hdone, if_true]
+      refine ⟨fun _ => ?_, fun h => by omega⟩
+      have : n - acc.length = 0 := by omega
+      simp [this]
+    · simp only [hdone, if_false]
+      have hst := Src.read_stream s (n - acc.length)
+      have hrl := Src.read_len s (n - acc.length)
+      obtain ⟨hd1, hd2⟩ := take_of_append_eq hst
+      generalize s.read (n - acc.length) = res at hst hrl hd1 hd2 ⊢
+      obtain ⟨d, e, s1⟩ := res
+      simp only [] at hst hrl hd1 hd2 ⊢
+      have hdl : d.length ≤ s.stream.length := by
+        have := congrArg List.length hst; rw [List.length_append] at this; omega
+      cases e with
+      | some e =>
+        simp only []
+        refine ⟨fun h => ?_, fun _ => ⟨e, rfl⟩⟩
+        rw [List.length_append] at h
+        have hlen : d.length = n - acc.length := by omega
+        rw [← hlen]
+        exact ⟨by rw [← hd1], hd2, hdl⟩
+      | none =>
+        simp only []
+        have hacc' : (acc ++ d).length ≤ n := by rw [List.length_append]; omega
+        obtain ⟨h1, h2⟩ := ih s1 n (acc ++ d) hacc'
+        refine ⟨fun h => ?_, h2⟩
+        obtain ⟨ha, hb, hc⟩ := h1 h
+        rw [List.length_append] at ha hb hc
+        have hsplit : n - acc.length = d.length + (n - (acc.length + d.length)) := by omega
+        refine ⟨?_, ?_, ?_⟩
+        · rw [ha, hsplit, ← hst, List.take_length_add_append, List.append_assoc]
+        · rw [hb, hsplit, ← hst, List.drop_length_add_append]
+        · have := congrArg List.length hst; rw [List.length_append] at this; omega
+
+/-- back-end invariant during one `Next(t)`: `got` is exactly what has been read from the stream
+    `S0` so far; over a live source the script still delivers -/
+def ReaderP (live : Prop) (S0 : Bytes) (s : ReaderDec) : Prop :=
+  (live → Delivers s.src.script s.src.stream.length = true) ∧ s.got ++ s.src.stream = S0
+
+/-- the read-full back end is a weak cursor over the unread stream for EVERY script (exact bytes or
+    an error), and an exact one over delivering scripts -/
+theorem reader_cursor (live : Prop) (S0 : Bytes) (bound : Nat) :
+    WCursor readerBackend (fun s => s.src.stream) (ReaderP live S0) live bound := by
+  refine ⟨?_, ?_⟩
+  · intro s k hp _
     obtain ⟨hd, hgot⟩ := hp
-    obtain ⟨e, script', hx, hdel⟩ := readFull_ok (s.src.script.length + 2) s.src.stream s.src.script k []
-      hd (Nat.zero_le _) (by simpa using hk) (by omega)
-    simp only [List.length_nil, Nat.sub_zero, List.nil_append] at hx hdel
-    have hlen : (List.take k s.src.stream).length = k := by rw [List.length_take]; omega
-    refine ⟨{ src := ⟨s.src.stream.drop k, script'⟩, got := s.got ++ s.src.stream.take k }, ?_, rfl, ?_, ?_⟩
-    · simp only [readerBackend, hx, hlen, Nat.le_refl, ge_iff_le, if_true]
-    · simp only [List.length_drop]; exact hdel
-    · simp only [List.append_assoc, List.take_append_drop]; exact hgot
-  · intro s k _ hk
-    obtain ⟨e, he, hlt⟩ := readFull_short (s.src.script.length + 2) s.src k [] (by simpa using hk)
-    refine ⟨.raw e, ?_⟩
-    have : ¬ (readFullLoop (s.src.script.length + 2) s.src k []).1.length ≥ k := by omega
-    simp only [readerBackend, this, if_false, he]
+    obtain ⟨hge, hlt⟩ := readFull_any (s.src.script.length + 2) s.src k [] (Nat.zero_le _)
+    simp only [List.length_nil, Nat.sub_zero, List.nil_append] at hge
+    by_cases hfull : (readFullLoop (s.src.script.length + 2) s.src k []).1.length ≥ k
+    · left
+      obtain ⟨h1, h2, h3⟩ := hge hfull
+      refine ⟨{ src := (readFullLoop (s.src.script.length + 2) s.src k []).2.2,
+                got := s.got ++ s.src.stream.take k }, ?_, h3, h2, ?_, ?_⟩
+      · have hlen : (List.take k s.src.stream).length ≥ k := by rw [List.length_take]; omega
+        simp only [readerBackend, h1, hlen, if_true]
+      · intro l
+        obtain ⟨e, script', hx, hdel⟩ := readFull_ok (s.src.script.length + 2) s.src.stream s.src.script k []
+          (hd l) (Nat.zero_le _) (by simpa using h3) (by omega)
+        simp only [List.length_nil, Nat.sub_zero, List.nil_append] at hx hdel
+        have hsrc : (⟨s.src.stream, s.src.script⟩ : Src) = s.src := rfl
+        rw [hsrc] at hx
+        simp only [hx, List.length_drop]
+        exact hdel
+      · simp only [h2, List.append_assoc, List.take_append_drop]; exact hgot
+    · right
+      obtain ⟨e, he⟩ := hlt (by omega)
+      refine ⟨.raw e, by simp only [readerBackend, hfull, if_false, he], fun l => ?_⟩
+      by_cases hk : k ≤ s.src.stream.length
+      · exfalso
+        obtain ⟨e', script', hx, _⟩ := readFull_ok (s.src.script.length + 2) s.src.stream s.src.script k []
+          (hd l) (Nat.zero_le _) (by simpa using hk) (by omega)
+        have hsrc : (⟨s.src.stream, s.src.script⟩ : Src) = s.src := rfl
+        rw [hsrc] at hx
+        apply hfull
+        rw [hx]; simp only [List.length_nil, Nat.sub_zero, List.nil_append, List.length_take]; omega
+      · omega
   · intro s _; simp [readerBackend]
+
+/-- ReaderSkipDecoder.Next(t) over ANY source script: an error, or refTpl 64 accepts a prefix of the
+    unread stream, exactly that prefix is returned and the source has been read exactly that far.
+    Over a delivering script: an error only if refTpl 64 rejects; the script still delivers. -/
+theorem readerDecNext_w (live : Prop) (src : Src) (t : UInt8)
+    (hd : live → Delivers src.script src.stream.length = true) :
+    (∃ e, readerDecNext src t = .err e ∧ (live → refTpl Facts.defaultRecursionDepth t src.stream = none)) ∨
+    (∃ k src', refTpl Facts.defaultRecursionDepth t src.stream = some k ∧
+      readerDecNext src t = .ok (src.stream.take k, src') ∧ src'.stream = src.stream.drop k ∧
+      (live → Delivers src'.script src'.stream.length = true)) := by
+  have hm := skipTplAtW (reader_cursor live src.stream tplReq) (Nat.le_refl _) Facts.defaultRecursionDepth t
+    { src := src, got := [] } ⟨hd, rfl⟩
+  simp only [] at hm
+  rcases hm with ⟨e, hx, hnone⟩ | ⟨k, s1, hr, hx, hrem, hdel, hgot⟩
+  · left; exact ⟨e, by simp [readerDecNext, hx], hnone⟩
+  · right
+    have hk := (refTpl_good _ t _ k hr).2
+    refine ⟨k, s1.src, hr, ?_, hrem, hdel⟩
+    have hrem' : s1.src.stream = src.stream.drop k := hrem
+    have hg : s1.got = src.stream.take k := by
+      rw [hrem'] at hgot
+      have h2 : s1.got ++ List.drop k src.stream = List.take k src.stream ++ List.drop k src.stream := by
+        rw [hgot, List.take_append_drop]
+      exact List.append_cancel_right h2
+    simp only [readerDecNext, hx, Out.bind_eq, Out.bind_ok, Out.pure_eq, hg]
 
 /-- ReaderSkipDecoder.Next(t) over a delivering source: exactly refTpl 64 on the unread stream; the
     value's bytes are returned and the source has been read exactly that far -/
@@ -209,24 +315,17 @@ theorem readerDecNext_exact (src : Src) (t : UInt8)
     | some k => ∃ src', readerDecNext src t = .ok (src.stream.take k, src') ∧
         src'.stream = src.stream.drop k ∧ Delivers src'.script src'.stream.length = true
     | none => ∃ e, readerDecNext src t = .err e := by
-  have hm := skipTplAt_tm (reader_cursor src.stream) Facts.defaultRecursionDepth t
-    { src := src, got := [] } ⟨hd, rfl⟩
-  unfold TM at hm
-  simp only [] at hm
-  cases hr : refTpl Facts.defaultRecursionDepth t src.stream with
-  | none =>
-    rw [hr] at hm; obtain ⟨e, he⟩ := hm
-    exact ⟨e, by simp [readerDecNext, he]⟩
-  | some k =>
-    rw [hr] at hm
-    obtain ⟨s1, hx, hrem, hdel, hgot⟩ := hm
-    have hk := (refTpl_good _ t _ k hr).2
-    refine ⟨s1.src, ?_, hrem, hdel⟩
-    have hg : s1.got = src.stream.take k := by
-      rw [hrem] at hgot
-      have h2 : s1.got ++ List.drop k src.stream = List.take k src.stream ++ List.drop k src.stream := by
-        rw [hgot, List.take_append_drop]
-      exact List.append_cancel_right h2
-    simp only [readerDecNext, hx, Out.bind_eq, Out.bind_ok, Out.pure_eq, hg]
+  rcases readerDecNext_w True src t (fun _ => hd) with ⟨e, hx, hnone⟩ | ⟨k, src', hr, hx, h1, h2⟩
+  · rw [hnone trivial]; exact ⟨e, hx⟩
+  · rw [hr]; exact ⟨src', hx, h1, h2 trivial⟩
+
+/-- … over ANY source script: sound and total -/
+theorem readerDecNext_any (src : Src) (t : UInt8) :
+    (∃ e, readerDecNext src t = .err e) ∨
+    (∃ k src', refTpl Facts.defaultRecursionDepth t src.stream = some k ∧
+      readerDecNext src t = .ok (src.stream.take k, src') ∧ src'.stream = src.stream.drop k) := by
+  rcases readerDecNext_w False src t (fun f => f.elim) with ⟨e, hx, _⟩ | ⟨k, src', hr, hx, h1, _⟩
+  · exact Or.inl ⟨e, hx⟩
+  · exact Or.inr ⟨k, src', hr, hx, h1⟩
 
 end Verif
